@@ -32,7 +32,7 @@ RULE = (
 ASSUMPTIONS = ["only injective mappings are in the property's domain; others are counted out of domain"]
 
 PA = ["a", "b", "c", "d", "e", "A"]
-UA = ["u1/", "u2/", "u3/", "u4/", "u5/", "u6/", "u7/", "U1/"]
+UA = ["u1/", "u2/", "u3/", "u4/", "u5/", "u6/", "u7/", "U1/", "http://t/n/", "https://t/n/"]
 
 
 # ---- bounded-exhaustive small world: every injective mapping with <= 3 pairs over small name sets -------------------
@@ -141,6 +141,15 @@ def run_case(ctx, g, rng):
         keys = rng.sample(allu + ["x1/", "x2/"], k=min(k, len(allu) + 2))
     else:
         keys = rng.sample(allp + ["zz"], k=min(k, len(allp) + 1))
+    if rng.random() < 0.3 and keys:
+        # an unknown key that a lenient reader would take for a known one (another letter case, a blank at the edge, the
+        # other of http / https): unknown all the same - "rewiring an unknown prefix adds nothing"
+        src = rng.choice(allp if mode == "rewire" else allu)
+        tw = [x for x in gen.twins(src, uri=mode != "rewire") if x not in (allp if mode == "rewire" else allu)]
+        if tw:
+            keys[rng.randrange(len(keys))] = rng.choice(tw)
+            keys = list(dict.fromkeys(keys))
+            S.counters["wl:unknown-keys-that-are-twins-of-known-ones"] += 1
     vals = rng.sample(allu + ["y1/", "y2/", "x1/"], k=len(keys))
     m = dict(zip(keys, vals))
     # the converter may have a past (registered record by record, grown through merges) and any delimiter
